@@ -92,10 +92,32 @@ def _six(p, v=(0.0, 0.0, 0.0)):
 # =====================================================================================
 # 1. Lattice3: exact oracle for the helpers
 # =====================================================================================
+REPS = ("float64", "int64", "float32", "list")
+TOL_FLOAT32 = 1e-5      # relative; a float32 container carries 24 bits, angles handed as float32 go through float32 trigonometry
+
+
+def as_rep(x, rep: str):
+    """Integer coordinates in the container `rep`."""
+    if rep == "list":
+        return [int(v) for v in x]
+    return np.array([int(v) for v in x], dtype={"float64": np.float64, "int64": np.int64, "float32": np.float32}[rep])
+
+
+def scal(v, rep: str):
+    """An integer scalar argument (angle, range, rate) in the flavour that goes with the container `rep`."""
+    return float(v) if rep == "float64" else np.float32(v) if rep == "float32" else int(v)
+
+
+class ListNotAccepted(Exception):
+    """A Python list raised inside a function whose signature asks for an ndarray: not a finding, only counted."""
+
+
 def _guarded(V: Viol, tag: str, st: dict, fn) -> None:
     """Evaluate one lattice state; an exception raised while evaluating the real helpers is a violation, not a crash."""
     try:
         fn(st)
+    except ListNotAccepted:
+        pass
     except Exception as ex:  # noqa: BLE001
         V.add(f"lattice-helper-raises:{tag}", f"a real helper raises {type(ex).__name__} on the {tag} lattice point {st}",
               {"part": "lattice", "tag": tag, "state": st, "error": repr(ex)})
@@ -112,45 +134,71 @@ def replay_lattice(ctx: Ctx, res, V: Viol) -> None:
     n = 0
     skew_seen = set()
     with np.errstate(all="ignore"):
+        list_refused = {}
+
+        def in_rep(rep, name, call):
+            """Call a real helper with arguments in container `rep`; a list that the helper cannot digest is only counted."""
+            try:
+                return call()
+            except Exception:
+                if rep != "list":
+                    raise
+                list_refused[name] = list_refused.get(name, 0) + 1
+                raise ListNotAccepted(name) from None
+
         def one_vec(st):
             nonlocal n
-            w, v = np.array(st["w"], float), np.array(st["v"], float)
-            exp_cross = np.array(st["cross"], float)
             n += 1
+            exp_cross = np.array(st["cross"], float)
             ctx.case(("vec", tuple(st["w"]), tuple(st["v"])), nontrivial=bool(exp_cross.any()),
                      sample=st if n == 4321 else None)
-            if tuple(st["w"]) not in skew_seen:
-                skew_seen.add(tuple(st["w"]))
-                got = M.skewSymmetric(w)
+            # every lattice point in the float64 container and in one of the others (the expected integers are the same)
+            for rep in ("float64", REPS[1 + n % 3]) if n % 2 else ("float64",):
+                try:
+                    vec_in(st, rep, exp_cross)
+                except ListNotAccepted:
+                    pass
+
+        def vec_in(st, rep, exp_cross):
+            sfx = "" if rep == "float64" else ":" + rep
+            w, v = as_rep(st["w"], rep), as_rep(st["v"], rep)
+            key = (tuple(st["w"]), rep)
+            if key not in skew_seen:
+                skew_seen.add(key)
+                got = in_rep(rep, "skewSymmetric", lambda: M.skewSymmetric(w))
                 if not _close(got, st["skew"]):
-                    V.add("skewSymmetric-matrix", f"skewSymmetric({st['w']}) differs from the documented cross-product matrix",
-                          {"part": "lattice", "w": st["w"], "got": np.asarray(got).tolist(), "expected": st["skew"]})
-            got = M.skewSymmetric(w) @ v
+                    V.add("skewSymmetric-matrix" + sfx, f"skewSymmetric({st['w']}) [{rep}] differs from the documented cross-product matrix",
+                          {"part": "lattice", "w": st["w"], "rep": rep, "got": np.asarray(got).tolist(), "expected": st["skew"]})
+            got = in_rep(rep, "skewSymmetric", lambda: np.asarray(M.skewSymmetric(w)) @ np.asarray(v))
             if not _close(got, exp_cross):
-                V.add("skewSymmetric-times-v-not-cross", "skewSymmetric(w) @ v differs from w x v",
-                      {"part": "lattice", "w": st["w"], "v": st["v"], "got": got.tolist(), "expected": st["cross"]})
-            if not _close(T.cross(w, v), exp_cross):
-                V.add("cross-helper", "cross(w, v) used by transforms differs from w x v",
-                      {"part": "lattice", "w": st["w"], "v": st["v"]})
+                V.add("skewSymmetric-times-v-not-cross" + sfx, f"skewSymmetric(w) @ v [{rep}] differs from w x v",
+                      {"part": "lattice", "w": st["w"], "v": st["v"], "rep": rep, "got": np.asarray(got).tolist(), "expected": st["cross"]})
+            if not _close(in_rep(rep, "cross", lambda: T.cross(w, v)), exp_cross):
+                V.add("cross-helper" + sfx, f"cross(w, v) [{rep}] used by transforms differs from w x v",
+                      {"part": "lattice", "w": st["w"], "v": st["v"], "rep": rep})
             if exp_cross.any():
                 # orbit-fixed triads for reference position w and velocity v
-                ref = _six(w, v)
-                exp_rsw = np.column_stack([_unit(w), _unit(st["s"]), _unit(exp_cross)])
-                exp_ntw = np.column_stack([_unit(st["n"]), _unit(v), _unit(exp_cross)])
-                got_rsw = np.column_stack([T.rsw2eci(ref, e)[:3] for e in eye6])
-                got_ntw = np.column_stack([T.ntw2eci(ref, e)[:3] for e in eye6])
-                if not _close(got_rsw, exp_rsw):
-                    V.add("rsw2eci-axes", "rsw2eci axes are not (r, (r x v) x r, r x v) normalised",
-                          {"part": "lattice", "r": st["w"], "v": st["v"], "got": got_rsw.tolist(), "expected": exp_rsw.tolist()})
-                if not _close(got_ntw, exp_ntw):
-                    V.add("ntw2eci-axes", "ntw2eci axes are not (v x (r x v), v, r x v) normalised",
-                          {"part": "lattice", "r": st["w"], "v": st["v"], "got": got_ntw.tolist(), "expected": exp_ntw.tolist()})
-                chaser = ref + _six((1.0, -2.0, 3.0), (0.5, 0.25, -1.0))
-                got = T.eci2rsw(ref, chaser)
-                exp = np.concatenate([exp_rsw.T @ (chaser - ref)[:3], exp_rsw.T @ (chaser - ref)[3:]])
-                if not _close(got, exp):
-                    V.add("eci2rsw-axes", "eci2rsw does not project the relative state on (R, S, W)",
-                          {"part": "lattice", "r": st["w"], "v": st["v"], "got": got.tolist(), "expected": exp.tolist()})
+                ref = as_rep(st["w"] + st["v"], rep)
+                units = [as_rep(e, rep) for e in ((1, 0, 0, 0, 0, 0), (0, 1, 0, 0, 0, 0), (0, 0, 1, 0, 0, 0))]
+                exp_rsw = np.column_stack([_unit(st["w"]), _unit(st["s"]), _unit(exp_cross)])
+                exp_ntw = np.column_stack([_unit(st["n"]), _unit(st["v"]), _unit(exp_cross)])
+                got_rsw = np.column_stack([np.asarray(in_rep(rep, "rsw2eci", lambda e=e: T.rsw2eci(ref, e)), float)[:3] for e in units])
+                got_ntw = np.column_stack([np.asarray(in_rep(rep, "ntw2eci", lambda e=e: T.ntw2eci(ref, e)), float)[:3] for e in units])
+                tolr = 1e-6 if rep == "float32" else TOL_LATTICE     # unit vectors of a float32 state are float32 numbers
+                if not _close(got_rsw, exp_rsw, tolr):
+                    V.add("rsw2eci-axes" + sfx, f"rsw2eci axes [{rep}] are not (r, (r x v) x r, r x v) normalised",
+                          {"part": "lattice", "r": st["w"], "v": st["v"], "rep": rep, "got": got_rsw.tolist(), "expected": exp_rsw.tolist()})
+                if not _close(got_ntw, exp_ntw, tolr):
+                    V.add("ntw2eci-axes" + sfx, f"ntw2eci axes [{rep}] are not (v x (r x v), v, r x v) normalised",
+                          {"part": "lattice", "r": st["w"], "v": st["v"], "rep": rep, "got": got_ntw.tolist(), "expected": exp_ntw.tolist()})
+                delta = np.array((1, -2, 3, 2, 1, -1))
+                chaser = as_rep(np.array(st["w"] + st["v"]) + delta, rep)
+                got = np.asarray(in_rep(rep, "eci2rsw", lambda: T.eci2rsw(ref, chaser)), float)
+                exp = np.concatenate([exp_rsw.T @ delta[:3], exp_rsw.T @ delta[3:]])
+                if not _close(got, exp, tolr * 10):
+                    V.add("eci2rsw-axes" + sfx, f"eci2rsw [{rep}] does not project the relative state on (R, S, W)",
+                          {"part": "lattice", "r": st["w"], "v": st["v"], "rep": rep, "got": got.tolist(), "expected": exp.tolist()})
+
         for st in res.tagged("VEC"):
             _guarded(V, "VEC", st, one_vec)
 
@@ -178,10 +226,15 @@ def replay_lattice(ctx: Ctx, res, V: Viol) -> None:
             i, a, w = st["axis"], st["q"] * math.pi / 2, np.array(st["w"], float)
             n += 1
             ctx.case(("dot", i, st["q"], tuple(st["w"])), nontrivial=bool(w.any()))
-            got = dot[i](a, w)
-            if not _close(got, st["m"]):
-                V.add(f"dotRot{i}-value", f"dotRot{i}(q*90deg, w) differs from rot{i}.[w]x (documented derivative)",
-                      {"part": "lattice", "axis": i, "q": st["q"], "w": st["w"], "got": np.asarray(got).tolist(), "expected": st["m"]})
+            for rep in ("float64", REPS[1 + n % 3]):
+                try:
+                    got = in_rep(rep, f"dotRot{i}", lambda: dot[i](a, as_rep(st["w"], rep)))
+                except ListNotAccepted:
+                    continue
+                if not _close(got, st["m"]):
+                    V.add(f"dotRot{i}-value" + ("" if rep == "float64" else ":" + rep),
+                          f"dotRot{i}(q*90deg, w) [{rep}] differs from rot{i}.[w]x (documented derivative)",
+                          {"part": "lattice", "axis": i, "q": st["q"], "w": st["w"], "rep": rep, "got": np.asarray(got).tolist(), "expected": st["m"]})
         for st in res.tagged("DOT"):
             _guarded(V, "DOT", st, one_dot)
 
@@ -218,34 +271,96 @@ def replay_lattice(ctx: Ctx, res, V: Viol) -> None:
         for st in res.tagged("SITE"):
             _guarded(V, "SITE", st, one_site)
 
+        def one_sitevec(st):
+            nonlocal n
+            n += 1
+            lat, lon = st["ql"] * math.pi / 2, st["qn"] * math.pi / 2
+            ctx.case(("sitevec", st["ql"], st["qn"], tuple(st["v"])), nontrivial=any(st["v"]))
+            state = list(st["v"]) + [-c for c in st["v"]]          # velocity = -position: the halves cannot be swapped unnoticed
+            for rep in REPS:
+                x = as_rep(state, rep)
+                for name, f, exp in (("ecef2sez", T.ecef2sez, st["mv"]), ("sez2ecef", T.sez2ecef, st["mtv"])):
+                    try:
+                        got = np.asarray(in_rep(rep, name, lambda f=f: f(x, lat, lon)), float)
+                    except ListNotAccepted:
+                        continue
+                    if not _close(got, list(exp) + [-c for c in exp]):
+                        V.add(f"{name}-integer-state:{rep}",
+                              f"{name} of the integer state {state} handed over as {rep} at lat {st['ql']}*90, lon {st['qn']}*90 deg is not the "
+                              f"rotated state {list(exp)} (lengths change, the pair is no longer inverse)",
+                              {"part": "lattice", "ql": st["ql"], "qn": st["qn"], "state": state, "rep": rep, "got": got.tolist(), "expected": list(exp)})
+
+        for st in res.tagged("SITEVEC"):
+            _guarded(V, "SITEVEC", st, one_sitevec)
+
+        two_pi = 2.0 * math.pi
+
         def one_look(st):
             nonlocal n
             d = np.array(st["dir"], float)
             n += 1
-            ctx.case(("look", st["azq"], st["elq"]))
+            ctx.case(("look", st["azq"], st["elq"], st["hair"]))
+            hair = st["hair"] * 1e-17 * np.array(st["perp"], float)      # far below every tolerance, but not zero
             for rng in (1.0, 1234.5):
-                r, el, az = T.sez2razel(_six(rng * d))[:3]
+                r, el, az = T.sez2razel(_six(rng * (d + hair)))[:3]
                 ok = abs(r - rng) <= 1e-12 * rng and abs(el - st["elq"] * math.pi / 2) <= 1e-12
                 if st["elq"] == 0:
-                    ok = ok and abs((az - st["azq"] * math.pi / 2 + math.pi) % (2 * math.pi) - math.pi) <= 1e-12
+                    ok = ok and abs((az - st["azq"] * math.pi / 2 + math.pi) % two_pi - math.pi) <= 1e-12
                 if not ok:
                     V.add("sez2razel-convention", "sez2razel: azimuth is not measured from north through east / elevation not positive up",
-                          {"part": "lattice", "azq": st["azq"], "elq": st["elq"], "got": [float(r), float(el), float(az)]})
+                          {"part": "lattice", "azq": st["azq"], "elq": st["elq"], "hair": st["hair"], "got": [float(r), float(el), float(az)]})
+                # right ascension of the same direction in an equatorial frame (no south flip)
+                d_eq = np.array([-1.0, 1.0, 1.0]) * (d + hair)
+                ra = T.cartesian2spherical(_six(rng * d_eq))[2]
+                if st["elq"] == 0:
+                    for name, val, x in (("sez2razel", az, rng * (d + hair)), ("cartesian2spherical", ra, rng * d_eq)):
+                        if not (0.0 <= val < two_pi):
+                            V.add(f"wrapAngle2Pi-range:{name}",
+                                  f"{name}({x.tolist()}): the angle {float(val)!r} is outside [0, 2 pi) (a direction a hair "
+                                  f"{'west' if st['hair'] < 0 else 'east'} of azimuth {st['azq']}*90 deg)",
+                                  {"part": "lattice", "azq": st["azq"], "hair": st["hair"], "input": x.tolist(), "got": float(val)})
+                        elif not abs((val - st["azq"] * math.pi / 2 + math.pi) % two_pi - math.pi) <= 1e-12:
+                            V.add(f"{name}-angle-value", f"{name}({x.tolist()}) = {float(val)!r} is not azimuth / right ascension {st['azq']}*90 deg",
+                                  {"part": "lattice", "azq": st["azq"], "hair": st["hair"], "input": x.tolist(), "got": float(val)})
                 back = T.razel2sez(rng, st["elq"] * math.pi / 2, st["azq"] * math.pi / 2, 0.0, 0.0, 0.0)
                 if not _close(back[:3], rng * d, 1e-12 * rng):
                     V.add("razel2sez-convention", "razel2sez does not put azimuth 0 to the north (-S) and 90 deg to the east",
                           {"part": "lattice", "azq": st["azq"], "elq": st["elq"], "got": back.tolist(), "expected": (rng * d).tolist()})
+
         for st in res.tagged("LOOK"):
             _guarded(V, "LOOK", st, one_look)
 
+        def one_wrap(st):
+            nonlocal n
+            n += 1
+            a0 = st["q"] * math.pi / 2
+            ctx.case(("wrap", st["q"], st["hair"]))
+            if st["hair"] == 0:
+                angles = [a0]
+            else:
+                angles = [a0 + st["hair"] * 1e-17, float(np.nextafter(a0, st["hair"] * math.inf)), a0 + st["hair"] * 1e-13]
+            for ang in angles:
+                got = float(M.wrapAngle2Pi(ang))
+                if not (0.0 <= got < two_pi):
+                    V.add("wrapAngle2Pi-range:helper", f"wrapAngle2Pi({ang!r}) = {got!r} is outside the documented [0, 2 pi)",
+                          {"part": "lattice", "q": st["q"], "hair": st["hair"], "input": ang, "got": got})
+                elif not abs((got - st["r"] * math.pi / 2 + math.pi) % two_pi - math.pi) <= 1e-12 * max(1, abs(st["q"])):
+                    V.add("wrapAngle2Pi-value", f"wrapAngle2Pi({ang!r}) = {got!r} is not {st['r']} quarter turns",
+                          {"part": "lattice", "q": st["q"], "hair": st["hair"], "input": ang, "got": got})
+
+        for st in res.tagged("WRAP"):
+            _guarded(V, "WRAP", st, one_wrap)
+
     # the emission must be the complete lattice (guards against a truncated TLC output)
-    nw = len(skew_seen)
+    nw = len({k[0] for k in skew_seen})
     nt = len({st["qa"] for st in res.tagged("ROT")})
-    counts = {t: len(res.tagged(t)) for t in ("VEC", "ROT", "DOT", "SITE", "LOOK")}
-    if n == 0 or counts != {"VEC": nw * nw, "ROT": 3 * nt * nt, "DOT": 3 * nt * nw, "SITE": 12, "LOOK": 6}:
+    counts = {t: len(res.tagged(t)) for t in ("VEC", "ROT", "DOT", "SITE", "SITEVEC", "LOOK", "WRAP")}
+    if n == 0 or counts != {"VEC": nw * nw, "ROT": 3 * nt * nt, "DOT": 3 * nt * nw, "SITE": 12, "SITEVEC": 12 * nw, "LOOK": 14,
+                            "WRAP": 3 * nt}:
         raise tlc.MachineryError(f"Lattice3.tla emission incomplete: {counts} for {nw} vectors, {nt} turn counts")
     ctx.traces_validated += n
     ctx.extra["lattice_states_replayed"] = n
+    ctx.extra["lattice_helpers_refusing_python_lists"] = list_refused
 
 
 # =====================================================================================
@@ -675,6 +790,89 @@ def replay_walks(ctx: Ctx, res, V: Viol, rng: random.Random) -> None:
     ctx.extra["max_relative_error_of_ecef2lla_seen"] = wk.max_geo_err
 
 
+def replay_hands(ctx: Ctx, res, V: Viol) -> None:
+    """FrameGraph!HandOver: integer coordinates handed to each real conversion in another container must give the result of
+    the float64 hand-over (the container is not part of the state)."""
+    from resonaate.physics.time.stardate import datetimeToJulianDate
+    from resonaate.physics.transforms import methods as T
+    hands = res.tagged("HAND")
+    if not hands:
+        raise tlc.MachineryError("FrameGraph.tla emitted no hand-over behaviours")
+    # integer-valued context: sites (lat, lon in radians), observer and reference orbit states, dates
+    sites = ((0, 0), (1, -2), (-1, 3))
+    observers = ((-1300, -4700, 4100, 0, 0, 0), (6378, 0, 0, 0, 0, 0))
+    refs = ((7000, 0, 0, 0, 7, 1), (-20000, 15000, 8000, -2, -3, 1))
+    dates = (datetime(2018, 3, 4, 12, 0, 0), datetime(2016, 12, 31, 23, 59, 59))
+
+    def call(fn, k, rep, site, obs, ref, when):
+        x = as_rep(k, rep)
+        sc = [scal(v, rep) for v in k]
+        lat, lon = scal(site[0], rep), scal(site[1], rep)
+        o, r = as_rep(obs, rep), as_rep(ref, rep)
+        if fn in ("eci2ecef", "ecef2eci", "eci2lla", "lla2eci"):
+            return getattr(T, fn)(x, when)
+        if fn in ("ecef2lla", "lla2ecef", "sez2razel"):
+            return getattr(T, fn)(x)
+        if fn in ("ecef2sez", "sez2ecef"):
+            return getattr(T, fn)(x, lat, lon)
+        if fn in ("eci2sez", "sez2eci"):
+            return getattr(T, fn)(x, lat, lon, when)
+        if fn == "razel2sez":
+            return T.razel2sez(*sc)
+        if fn == "radec2eci":
+            return T.spherical2cartesian(*sc)
+        if fn in ("eci2razel", "eci2radec"):
+            return getattr(T, fn)(x, o, when)
+        if fn in ("razel2radec", "radec2razel"):
+            return getattr(T, fn)(*sc, o, when)
+        if fn == "radarObs2eciPosition":
+            return T.radarObs2eciPosition(SimpleNamespace(range_km=sc[0], elevation_rad=sc[1], azimuth_rad=sc[2],
+                                                          julian_date=datetimeToJulianDate(when), sensor_eci=o))
+        if fn in ("eci2rsw", "rsw2eci", "ntw2eci"):
+            return getattr(T, fn)(r, x)
+        if fn == "eci2ntw":                     # derived edge: the real function behind it is ntw2eci
+            return T.ntw2eci(r, x)
+        raise tlc.MachineryError(f"no hand-over for {fn}")
+
+    refused = {}
+    n = 0
+    with np.errstate(all="ignore"):
+        for h in sorted(hands, key=lambda h: (h["fn"], h["rep"], h["coords"])):
+            fn, rep, k = h["fn"], h["rep"], h["coords"]
+            for j, (site, obs, ref, when) in enumerate(itertools.product(sites, observers[:1], refs, dates[:1])
+                                                       if ctx.quick else itertools.product(sites, observers, refs, dates)):
+                n += 1
+                ctx.case(("hand", fn, rep, tuple(k), site, obs, ref, when.isoformat()), nontrivial=True,
+                         sample={"hand": h, "site": site} if (fn, rep, j) == ("sez2ecef", "int64", 1) else None)
+                rp = {"part": "hand", "fn": fn, "rep": rep, "coords": k, "site_lat_lon": site, "observer": obs, "ref": ref,
+                      "date": when.isoformat()}
+                try:
+                    base = np.asarray(call(fn, k, "float64", site, obs, ref, when), dtype=float)
+                except Exception as ex:  # noqa: BLE001
+                    V.add(f"conversion-raises-on-integer-valued-state:{fn}", f"{fn} raises {type(ex).__name__} for the float64 state {k}",
+                          dict(rp, error=repr(ex)))
+                    continue
+                try:
+                    got = np.asarray(call(fn, k, rep, site, obs, ref, when), dtype=float)
+                except Exception as ex:  # noqa: BLE001
+                    if rep == "list":       # the signatures ask for ndarray: a refused list is counted, not reported
+                        refused[fn] = type(ex).__name__
+                        continue
+                    V.add(f"conversion-rejects:{rep}:{fn}", f"{fn} raises {type(ex).__name__} when the state {k} is handed over as {rep}",
+                          dict(rp, error=repr(ex)))
+                    continue
+                big = max(1.0, float(np.max(np.abs(base[np.isfinite(base)]))) if np.isfinite(base).any() else 1.0)
+                tol = (TOL_FLOAT32 if rep == "float32" else 1e-12) * big
+                same_nan = np.array_equal(np.isfinite(base), np.isfinite(got))
+                if got.shape != base.shape or not same_nan or float(np.max(np.abs(np.nan_to_num(got - base)))) > tol:
+                    V.add(f"representation-changes-result:{rep}:{fn}",
+                          f"{fn} of the integer-valued state {k} handed over as {rep} differs from the float64 result "
+                          f"(site {site}): {got.tolist()} vs {base.tolist()}", dict(rp, got=got.tolist(), expected=base.tolist()))
+    ctx.traces_validated += n
+    ctx.extra["handovers"] = n
+    ctx.extra["conversions_refusing_python_lists"] = refused
+
+
 # =====================================================================================
 # 3. EarthClock: day-of-year oracle and continuity of the rotation
 # =====================================================================================
@@ -688,8 +886,14 @@ def parse_eop(path) -> dict:
     return tab
 
 
+def tt_kinds(ms_end: int, ttoff: int) -> list:
+    """Boundaries of terrestrial time (UTC + (TAI-UTC) + 32.184 s) on which the instant ms_end (ms of day) falls."""
+    t = ms_end + ttoff
+    return [k for k, n in (("tt-day", 86400000), ("tt-hour", 3600000), ("tt-minute", 60000)) if t % n == 0]
+
+
 def measure_transitions(ctx: Ctx, rng: random.Random, V: Viol | None = None):
-    """Measure the 1 s advance of the Earth-fixed longitude of fixed inertial directions."""
+    """Measure the advance of the Earth-fixed longitude of fixed inertial directions over 1 s / 0.5 s / 1 ms transitions."""
     from resonaate.physics.transforms.methods import eci2ecef
     tab = parse_eop(REPO / "src/resonaate/physics/data/eop/EOPdata.dat")
     first, last = min(tab), max(tab)
@@ -697,47 +901,80 @@ def measure_transitions(ctx: Ctx, rng: random.Random, V: Viol | None = None):
         raise tlc.MachineryError(f"unexpected span of the bundled EOP table: {first} .. {last}")
     dirs = [_six((7000.0, 0.0, 0.0)), _six((-25000.0, 33000.0, 0.0))]
     epoch = date(2014, 1, 1)
+    cache = {}
 
-    def lon(x, t):
-        y = eci2ecef(x, t)
-        return math.atan2(y[1], y[0])
+    def lon(k, t):
+        """Earth-fixed longitude, or the exception the real conversion raised at this legal instant."""
+        key = (k, t)
+        if key not in cache:
+            if len(cache) > 64:
+                cache.clear()
+            try:
+                y = eci2ecef(dirs[k], t)
+                cache[key] = math.atan2(y[1], y[0])
+            except Exception as ex:  # noqa: BLE001 - raised for an instant inside the span of the code's own table
+                cache[key] = ex
+        return cache[key]
 
-    def record(t0: datetime, k: int, half: int = 0):
-        t1 = t0 + (timedelta(microseconds=500000) if half else timedelta(seconds=1))
-        try:
-            dl = (lon(dirs[k], t1) - lon(dirs[k], t0) + math.pi) % (2 * math.pi) - math.pi
-        except Exception as ex:  # noqa: BLE001 - the real code raised for a date inside the span of its own table
-            if V is None:
-                raise
-            V.add("eci2ecef-raises-inside-eop-span", f"eci2ecef raises {type(ex).__name__} at {t0.isoformat()} (+1 s), inside the span of the bundled table",
-                  {"part": "clock", "t0": t0.isoformat(), "error": repr(ex)})
-            return None
-        if not math.isfinite(dl):
-            if V is None:
-                raise tlc.MachineryError(f"non-finite longitude at {t0.isoformat()}")
-            V.add("eci2ecef-nonfinite", f"eci2ecef returns a non-finite Earth-fixed position at {t0.isoformat()} (+{t1 - t0})",
-                  {"part": "clock", "t0": t0.isoformat()})
-            return None
+    def record(t0: datetime, k: int, dur: int = 1000):
+        t1 = t0 + timedelta(milliseconds=dur)
+        a, b = lon(k, t0), lon(k, t1)
         d0, d1 = t0.date(), t1.date()
-        s = t0.hour * 3600 + t0.minute * 60 + t0.second
+        ms = ((t0.hour * 60 + t0.minute) * 60 + t0.second) * 1000 + t0.microsecond // 1000
         dut = (tab[d1][0] - tab[d0][0]) * 10            # units of 1e-8 s
         dat = tab[d1][1] - tab[d0][1]
+        rec = {"y": d0.year, "m": d0.month, "d": d0.day, "ms": ms, "dur": dur, "raised": 0, "adv": 0,
+               "smooth": dut - dat * 100000000, "dat": dat, "dir": k, "t0": t0.isoformat(), "adv_s": None}
+        for t, v in ((t0, a), (t1, b)):
+            if isinstance(v, Exception):
+                rec.update(raised=1, error=f"{type(v).__name__}: {v}", exc=type(v).__name__, at=t.isoformat())
+                return rec
+        dl = (b - a + math.pi) % (2 * math.pi) - math.pi
+        if not math.isfinite(dl):
+            rec.update(raised=1, error="non-finite Earth-fixed position", exc="NonFinite", at=t0.isoformat())
+            return rec
         adv = round(-dl / OMEGA / UNIT)
         # TLC integers are 32 bit: clamp (10 s of rotation is as wrong as anything larger); the exact value stays in adv_s
-        return {"y": d0.year, "m": d0.month, "d": d0.day, "s": s, "adv": max(-1000000000, min(1000000000, adv)),
-                "smooth": dut - dat * 100000000, "dat": dat, "h": half, "dir": k, "t0": t0.isoformat(), "adv_s": -dl / OMEGA}
+        rec.update(adv=max(-1000000000, min(1000000000, adv)), adv_s=-dl / OMEGA)
+        return rec
 
     ndays = (date(2022, 12, 31) - epoch).days + 1
     recs = [[] for _ in range(ndays)]
     day = epoch
     while day + timedelta(days=1) in tab and day <= date(2022, 10, 3):
-        t0 = datetime(day.year, day.month, day.day, 23, 59, 59)
+        n = (day - epoch).days
+        midnight = datetime(day.year, day.month, day.day)
+        t0 = midnight + timedelta(seconds=86399)
         for k in range(len(dirs)):
-            recs[(day - epoch).days].append(record(t0, k))
-        if (day - epoch).days % 7 == 0:                   # the boundary crossed in mid-second as well
-            recs[(day - epoch).days].append(record(t0 + timedelta(microseconds=500000), 0))
+            recs[n].append(record(t0, k))
+        if n % 7 == 0:                                    # the boundary crossed in mid-second as well
+            recs[n].append(record(t0 + timedelta(microseconds=500000), 0))
+        # instants where terrestrial time (UTC + dAT + 32.184 s) is exactly on a day / hour / minute boundary, and
+        # one millisecond either side: the transitions x-1ms -> x and x -> x+1ms
+        ttoff = tab[day][1] * 1000 + 32184
+        ends = [(86400000 - ttoff) % 86400000,                                       # TT midnight
+                (rng.randrange(1440) * 60000 - ttoff) % 86400000]                    # a TT minute
+        if n % 3 == 0 or not ctx.quick:
+            ends.append((rng.randrange(24) * 3600000 - ttoff) % 86400000)            # a TT hour
+        if not ctx.quick:
+            ends += [(rng.randrange(1440) * 60000 - ttoff) % 86400000 for _ in range(3)]
+        for ms_end in ends:
+            if ms_end < 1:
+                continue
+            x = midnight + timedelta(milliseconds=ms_end)
+            recs[n].append(record(x - timedelta(milliseconds=1), n % len(dirs), 1))
+            recs[n].append(record(x, n % len(dirs), 1))
         day += timedelta(days=1)
-    recs = [[r for r in dayrecs if r is not None] for dayrecs in recs]
+    # every TT minute of one day per value of TAI-UTC (thorough: three days each)
+    for dd in ((date(2014, 5, 1), date(2016, 5, 1), date(2018, 3, 14)) if ctx.quick else
+               (date(2014, 5, 1), date(2015, 6, 30), date(2015, 1, 1), date(2016, 5, 1), date(2015, 7, 1), date(2016, 12, 31),
+                date(2018, 3, 14), date(2017, 1, 1), date(2022, 10, 3))):
+        ttoff = tab[dd][1] * 1000 + 32184
+        for mnt in range(1440):
+            ms_end = (mnt * 60000 - ttoff) % 86400000
+            if ms_end >= 1:
+                x = datetime(dd.year, dd.month, dd.day) + timedelta(milliseconds=ms_end)
+                recs[(dd - epoch).days].append(record(x - timedelta(milliseconds=1), 0, 1))
     span = (date(2022, 10, 3) - epoch).days
     for i in range(1500 if ctx.quick else 40000):
         dd = epoch + timedelta(days=rng.randrange(span + 1))
@@ -750,12 +987,13 @@ def measure_transitions(ctx: Ctx, rng: random.Random, V: Viol | None = None):
             s = rng.randrange(86399)
         if s >= 86399:
             s = 86398
-        half = 1 if i % 5 == 2 else 0                                 # s.0 -> s.5: sub-second resolution of the rotation
+        half = i % 5 == 2                                             # s.0 -> s.5: sub-second resolution of the rotation
         t0 = datetime(dd.year, dd.month, dd.day) + timedelta(seconds=s, microseconds=0 if half else rng.choice((0, 0, 500000)))
-        r = record(t0, i % len(dirs), half)
-        if r is not None:
-            recs[(dd - epoch).days].append(r)
+        recs[(dd - epoch).days].append(record(t0, i % len(dirs), 500 if half else 1000))
     return recs, tab
+
+
+REC_FIELDS = ("y", "m", "d", "ms", "dur", "raised", "adv", "smooth", "dat")
 
 
 def check_clock(ctx: Ctx, res, recs, V: Viol, rng: random.Random) -> None:
@@ -763,8 +1001,18 @@ def check_clock(ctx: Ctx, res, recs, V: Viol, rng: random.Random) -> None:
     days = res.tagged("DAY")
     if len(days) != (date(2022, 12, 31) - date(2014, 1, 1)).days + 1:
         raise tlc.MachineryError(f"EarthClock.tla emitted {len(days)} days")
+    tab = parse_eop(REPO / "src/resonaate/physics/data/eop/EOPdata.dat")
     kinds_count = {}
     by_n = {}
+
+    def kinds_of(st, r):
+        s = r["ms"] // 1000
+        if r["dur"] == 1000:
+            ks = list(st["kinds"]) if s == 86399 else (["minute"] if s % 60 == 59 else ["second"]) + (["hour"] if s % 3600 == 3599 else [])
+        else:
+            ks = ["half-second"] if r["dur"] == 500 else ["millisecond"]
+        return ks + [k + ("-start" if at == r["ms"] else "") for at in (r["ms"], r["ms"] + r["dur"]) for k in tt_kinds(at, st["ttoff"])]
+
     for st in days:
         n = st["n"]
         by_n[n] = st
@@ -773,6 +1021,8 @@ def check_clock(ctx: Ctx, res, recs, V: Viol, rng: random.Random) -> None:
             raise tlc.MachineryError(f"EarthClock calendar disagrees with datetime at day {n}: {st}")
         if st["nrec"] != len(recs[n]):
             raise tlc.MachineryError(f"EarthClock read {st['nrec']} records for day {n}, driver wrote {len(recs[n])}")
+        if dd in tab and tab[dd][1] != st["dat"]:
+            raise tlc.MachineryError(f"TAI-UTC of the bundled table ({tab[dd][1]}) differs from EarthClock.TaiMinusUtc ({st['dat']}) on {dd}")
         # exact oracle for the day-of-year helper (00:00:00), and its fraction at a random time
         ctx.case(("doy", st["y"], st["m"], st["d"]), nontrivial=True, sample={"doy_case": st} if n == 789 else None)
         h, mi, s = rng.randrange(24), rng.randrange(60), rng.randrange(60) + rng.choice((0.0, 0.5))
@@ -790,12 +1040,10 @@ def check_clock(ctx: Ctx, res, recs, V: Viol, rng: random.Random) -> None:
             V.add("dayOfYear-fraction-wrong", "dayOfYear fraction is not seconds-of-day / 86400",
                   {"part": "clock", "date": [st["y"], st["m"], st["d"], h, mi, s], "got": gotf})
         for r in recs[n]:
-            ks = st["kinds"] if r["s"] == 86399 else (["minute"] if r["s"] % 60 == 59 else ["second"]) + (["hour"] if r["s"] % 3600 == 3599 else [])
-            if r["h"]:
-                ks = ["half-second"]
+            ks = kinds_of(st, r)
             for k in ks:
                 kinds_count[k] = kinds_count.get(k, 0) + 1
-            ctx.case(("transition", r["t0"], r["dir"]), nontrivial=True,
+            ctx.case(("transition", r["t0"], r["dur"], r["dir"]), nontrivial=True,
                      sample={"transition": r, "kinds": ks} if "leapsecond" in ks and r["dir"] == 0 and not r["t0"].endswith("500000") else None)
     nrec = sum(len(x) for x in recs)
     bad_days = set()
@@ -811,27 +1059,41 @@ def check_clock(ctx: Ctx, res, recs, V: Viol, rng: random.Random) -> None:
         bad_days.add(int(m[-1]))
     if res.property_violations:
         raise tlc.MachineryError(f"EarthClock.tla property violated at spec level: {res.property_violations[0][0]}")
-    order = ["leapsecond", "year", "leapday", "month", "day", "hour", "minute", "second"]
+    order = ["leapsecond", "year", "leapday", "month", "day", "hour", "minute", "second", "half-second", "millisecond"]
+    tt_order = ["tt-day", "tt-hour", "tt-minute", "tt-day-start", "tt-hour-start", "tt-minute-start"]
     worst = 0
     named = 0
     for n in range(len(recs)):
         st = by_n[n]
         for r in recs[n]:
-            el = st["elapsed"] if r["s"] == 86399 else 1
-            dev = r["adv"] - (50000000 if r["h"] else el * 100000000 + r["smooth"])
+            s = r["ms"] // 1000
+            el = (st["elapsed"] if s == 86399 else 1) if r["dur"] == 1000 else 0
+            dev = r["adv"] - (el * 100000000 + r["smooth"] if r["dur"] == 1000 else r["dur"] * 100000)
             if n not in bad_days:           # accepted by TLC
+                if r["raised"]:
+                    raise tlc.MachineryError(f"TLC accepted day {n} although a conversion raised at {r['t0']}")
                 worst = max(worst, abs(dev))
                 continue
             # TLC rejected this day: name the failing record (the verdict is TLC's, this only labels it)
-            if not r["h"] and r["dat"] != el - 1:
+            ks = kinds_of(st, r)
+            if r["raised"]:
+                where = next((k.replace("tt-", "tt-on-").replace("-start", "") + "-boundary" for k in tt_order if k in ks),
+                             next(k for k in order if k in ks))
+                named += 1
+                V.add(f"frame-conversion-raises:{r['exc']}:{where}",
+                      f"eci2ecef raises {r['error']} at the legal instant {r['at']} (UTC) [{where}]",
+                      {"part": "clock", "record": r, "kinds": ks})
+                continue
+            if r["dur"] == 1000 and r["dat"] != el - 1:
                 raise tlc.MachineryError(f"leap seconds of the bundled table differ from EarthClock.LeapSecondDays at {r['t0']}")
-            if abs(dev) > TOL_CONT_UNITS or abs(r["smooth"]) > SMOOTH_MAX_UNITS or (r["s"] < 86399 and r["smooth"] != 0):
-                ks = st["kinds"] if r["s"] == 86399 else (["hour"] if r["s"] % 3600 == 3599 else ["minute"] if r["s"] % 60 == 59 else ["second"])
-                kind = "half-second" if r["h"] else next(k for k in order if k in ks)
+            if abs(dev) > TOL_CONT_UNITS or abs(r["smooth"]) > SMOOTH_MAX_UNITS or ((s < 86399 or r["dur"] < 1000) and r["smooth"] != 0):
+                kind = next(k for k in order if k in ks)
+                if any(k.startswith("tt-") for k in ks):
+                    kind += ":" + next(k for k in tt_order if k in ks).replace("-start", "")
                 named += 1
                 V.add(f"rotation-discontinuous:{kind}",
-                      f"Earth-fixed longitude advances by {r['adv_s']:.8f} s of rotation over the {'0.5' if r['h'] else '1'} s transition at {r['t0']} "
-                      f"({kind}); expected {0.5 if r['h'] else el} s + table step {r['smooth'] * UNIT:.7f} s within {TOL_CONT_RAD} rad",
+                      f"Earth-fixed longitude advances by {r['adv_s']:.8f} s of rotation over the {r['dur']} ms transition at {r['t0']} "
+                      f"({kind}); expected {el if r['dur'] == 1000 else r['dur'] / 1000} s + table step {r['smooth'] * UNIT:.7f} s within {TOL_CONT_RAD} rad",
                       {"part": "clock", "record": r, "kinds": ks, "deviation_rad": dev * UNIT * OMEGA})
     if bad_days and not named:
         raise tlc.MachineryError(f"TLC rejected days {sorted(bad_days)[:5]} but the driver cannot name a failing record")
@@ -886,7 +1148,9 @@ def run(ctx: Ctx):
                 "non-zero cross product / non-identity turn; walks: every closed walk of length <= 6 of FrameGraph.tla x cases "
                 "(start point native to the start frame from lattice directions x radii / lattice angles, 3 companions, date, site, "
                 "reference orbit), non-trivial = not skipped as singular; clock: every day 2014..2022 (day-of-year), every midnight "
-                "2014-01-01..2022-10-03 x 2 inertial directions plus seeded minute/hour/second transitions")
+                "2014-01-01..2022-10-03 x 2 inertial directions plus seeded minute/hour/second/half-second transitions and 1 ms transitions "
+                "around the instants where terrestrial time is on a minute/hour/day boundary; hand-overs: every conversion x container x "
+                "integer coordinates of FrameGraph!IntArgs x integer sites / reference orbits")
     ctx.assumptions = [
         f"lattice helpers compared with TLC's integers at {TOL_LATTICE} (exact oracle)",
         f"closed walks: position error <= max({TOL_POS_ABS} km, {TOL_POS_REL} x largest vector), velocity error <= {TOL_VEL} km/s; "
@@ -907,6 +1171,14 @@ def run(ctx: Ctx):
         f"design; |step| <= 5 ms) within {TOL_CONT_RAD} rad; the table is parsed independently by the driver",
         "authoritative calendar: datetime + timedelta (cross-checked against EarthClock.tla, mismatch = machinery error)",
         f"velocity relation: central difference over +-1 s within {TOL_DERIV} km/s (truncation bound 4e-8 km/s at 10 radii)",
+        "containers: integer-valued states are handed to every conversion as float64 / int64 / float32 arrays and as Python lists "
+        f"(scalars as int / numpy float32); int64 and list must reproduce the float64 result to 1e-12, float32 to {TOL_FLOAT32} relative "
+        "(float32 arithmetic inside the conversion is accepted); a function that RAISES on a list is only counted (signatures ask for "
+        "ndarray), a silently different result is a violation",
+        "every instant of the table span is legal: a conversion that raises is a violation; instants are posed in particular where "
+        "UTC + (TAI-UTC) + 32.184 s falls on a whole minute / hour / day, and one millisecond either side",
+        "angles returned through maths.wrapAngle2Pi (azimuth, right ascension) must lie in its documented [0, 2 pi), also for "
+        "directions a hair (1e-17 relative) either side of the lattice azimuths",
     ]
     tier = "quick" if ctx.quick else "thorough"
     pool = ThreadPoolExecutor(3)
@@ -916,7 +1188,7 @@ def run(ctx: Ctx):
 
     recs, _tab = measure_transitions(ctx, rng, V)
     d = ctx.sub("clock")
-    (d / "records.json").write_text(json.dumps([[{k: r[k] for k in ("y", "m", "d", "s", "h", "adv", "smooth", "dat")} for r in day] for day in recs]))
+    (d / "records.json").write_text(json.dumps([[{k: r[k] for k in REC_FIELDS} for r in day] for day in recs]))
     f_clk = pool.submit(tlc.run_tlc, "EarthClock", "EarthClock.cfg", d, workers=1, cont=True, env={"RECORDS_FILE": "records.json"}, timeout=1500)
 
     res = tlc.require_ok(f_lat.result(), "Lattice3")
@@ -928,6 +1200,7 @@ def run(ctx: Ctx):
     ctx.add_tlc(res, "FrameGraph.tla exhaustive: all closed walks up to MaxLen")
     _spec_level(res, "FrameGraph.tla")
     replay_walks(ctx, res, V, rng)
+    replay_hands(ctx, res, V)
 
     res = tlc.require_ok(f_clk.result(), "EarthClock")
     ctx.add_tlc(res, "EarthClock.tla: calendar 2014..2022 + validation of measured transitions (ContinuityOK)")
